@@ -173,6 +173,67 @@ def run_sync(spa, cli, start, length, budget, tokens, chain):
         return {"ok": st.had_at_least_one_block, "block": st.status_block, "sends": len(sock._send_handlers)}
 
 
+def run_sync_history(spa, cli, xfers, chains):
+    """a history of transfers on ONE real GeckoStructure (the assembly state lives on it) and one real socket; every
+    transfer is driven until its handler is gone (answered, or retries exhausted by trailing timeouts)"""
+    from geckolib.driver.spastruct import GeckoStructure
+    from geckolib.driver.udp_socket import GeckoUdpSocket
+    from geckolib.driver.protocol.statusblock import GeckoStatusBlockProtocolHandler
+    clk = Clock()
+    clk.t = 0.0
+    out = []
+    with vloop.patch_time(lambda: clk.t):
+        sock = GeckoUdpSocket()
+        st = GeckoStructure(lambda *a: None)
+        st.set_status_block(cli)
+        for n, (start, length, budget, tokens) in enumerate(xfers):
+            chain = chains[(start, length)]
+            before = st.status_block
+            st.had_at_least_one_block = False
+            sends0 = len(sock._send_handlers)
+            req = GeckoStatusBlockProtocolHandler.request(n + 1, start, length, parms=SENDER)
+            req._retry_count = budget
+            err = None
+            try:
+                st.retry_request(sock, req, SENDER)
+                for tok in tokens:
+                    if tok == "t":
+                        clk.t += req._timeout_in_seconds + 0.5
+                        for h in list(sock._receive_handlers):
+                            h.loop(sock)
+                        sock._cleanup_handlers()
+                    else:
+                        clk.t += 0.01
+                        sock.dispatch_recevied_data(chain[int(tok[1:])][3], SENDER)
+                        sock._cleanup_handlers()
+            except Exception as e:  # noqa
+                err = f"raised {type(e).__name__}: {e}"
+            out.append({"ok": err or st.had_at_least_one_block, "block": st.status_block, "before": before,
+                        "sends": len(sock._send_handlers) - sends0, "live": req in sock._receive_handlers})
+    return out
+
+
+def gen_history(rng, pairs, chains):
+    """2-3 transfers; earlier ones often die after an accepted in-order prefix (so stale assembly state is left behind)"""
+    xs = []
+    for j in range(rng.choice([2, 2, 3])):
+        s0, ln = rng.choice(pairs)
+        nseg = len(chains[(s0, ln)])
+        budget = rng.choice([0, 1, 2])
+        base = [f"s{i}" for i in range(nseg)]
+        kind = rng.choice(["prefix-then-dead", "prefix-then-dead", "inorder", "faulty"]) if j < 2 else rng.choice(["inorder", "faulty"])
+        if kind == "prefix-then-dead" and nseg >= 2:
+            k = rng.randrange(1, nseg)
+            toks = base[:k]
+        elif kind == "faulty":
+            toks = gen_stream(rng, nseg)[1]
+        else:
+            kind, toks = "inorder", base
+        toks = list(toks) + ["t"] * (budget + 1 + toks.count("t") + nseg)    # run the handler to its end
+        xs.append((s0, ln, budget, toks, kind))
+    return xs
+
+
 def oracle(ctx, cls, res, spa, cli, start, length, bound, inp):
     """the property, read directly on the implementation's result"""
     blk = res["block"]
@@ -260,6 +321,27 @@ def run(ctx):
             ctx.hist("async_outcomes", f"ok={ra['ok']} sends={ra['sends']}")
             if kind != "inorder" and len(ch) >= 2:
                 nontrivial.add((kind, len(ch), ra["ok"], ra["sends"]))
+    # ---- 3. histories of transfers on one threaded structure (the assembly state lives on the structure)
+    multi = [p for p in todo if len(chains[p]) >= 2]
+    for _ in range(40 if ctx.quick else 600):
+        if not multi:
+            break
+        xs = gen_history(rng, multi, chains)
+        res = run_sync_history(spa, cli, [x[:4] for x in xs], chains)
+        lines.append("synch " + ";".join(f"{s0}:{ln}:{b}:{','.join(t) if t else '-'}" for s0, ln, b, t, _ in xs))
+        impl_ans.append(" | ".join(f"ok={1 if r['ok'] is True else 0} sends={r['sends']} chk={checksum(r['block'])} len={len(r['block'])}" for r in res))
+        for j, ((s0, ln, b, t, kind), r) in enumerate(zip(xs, res)):
+            inp = {"history": [{"start": a, "len": l, "budget": bb, "stream": ",".join(tt)} for a, l, bb, tt, _ in xs[:j + 1]],
+                   "transfer": j, "client": "threaded-history", "spa": "seeded"}
+            if r["live"]:
+                ctx.count("history_transfer_not_finished")
+                break
+            oracle(ctx, f"threaded-history:{'first' if j == 0 else 'later'}", r, spa, r["before"], s0, ln, 1 + b, inp)
+            if kind == "inorder" and r["ok"] is not True:
+                ctx.violation(f"faultfree:threaded-history:{'first' if j == 0 else 'later'}", inp, "fault-free transfer succeeds",
+                              f"ok={r['ok']} sends={r['sends']}")
+            ctx.hist("history_transfers", f"{'first' if j == 0 else 'later'}:{kind}:ok={r['ok'] is True}")
+        ctx.count("histories")
     try:
         model = Driver("Driver/C01.lean").run(lines)
     except DriverFailure as e:
@@ -275,7 +357,7 @@ def run(ctx):
         ctx.cov["correspondence_ops"] = len(lines)
         ctx.cov["correspondence_disagreements"] = nd
     for i in range(len(lines)):
-        if lines[i].startswith(("async", "sync")) and "t" in lines[i].split(" ")[-1]:
+        if lines[i].startswith(("async", "sync ")) and "t" in lines[i].split(" ")[-1]:
             ctx.sample({"op": lines[i][:160], "impl": impl_ans[i]})
     ctx.cov["distinct_nontrivial"] = len(nontrivial)
     ctx.cov["rule"] = ("(start,len) = boundaries, multiples of 39 +-1, shipped refresh windows, seeded random (thorough: every length at starts 0 and 256); for each the "
@@ -293,6 +375,14 @@ def replay(inp):
     rng = random.Random(0)
     spa = bytes(rng.randrange(256) for _ in range(1024))
     cli = bytes(rng.randrange(256) for _ in range(1024))
+    if inp.get("client") == "threaded-history":
+        hs = inp["history"]
+        chains = {(h["start"], h["len"]): real_chain(spa, h["start"], h["len"]) for h in hs}
+        res = run_sync_history(spa, cli, [(h["start"], h["len"], h["budget"], h["stream"].split(",") if h["stream"] else []) for h in hs], chains)
+        j = inp["transfer"]
+        r = res[j]
+        oracle(ctx, "threaded-history", r, spa, r["before"], hs[j]["start"], hs[j]["len"], 1 + hs[j]["budget"], inp)
+        return bool(ctx.violations), ctx.violations[0]["observed"] if ctx.violations else f"ok={r['ok']} sends={r['sends']}"
     ch = real_chain(spa, inp["start"], inp["len"])
     toks = [] if inp["stream"] == "-" else inp["stream"].split(",")
     if inp.get("client") == "threaded":
